@@ -160,6 +160,8 @@ pub trait Elem: 'static + Sized + Clone + Send + Sync {
     const SIZE: usize;
     const ALIGN: usize;
     const HAS_DROP: bool;
+    /// Clone / Drop report to the registry (false for the plain std types used by C04)
+    const TRACKED: bool = true;
     /// create a fresh, registered value and return it
     fn fresh() -> Self;
     /// identity (0 for ZST)
@@ -337,6 +339,7 @@ macro_rules! plain_elem {
             const SIZE: usize = 8;
             const ALIGN: usize = std::mem::align_of::<$t>();
             const HAS_DROP: bool = false;
+            const TRACKED: bool = false;
             fn fresh() -> Self { let id = reg_create(8); ($from)(id) }
             #[inline] fn id(&self) -> u16 { ($to)(self) }
             #[inline] fn intact(&self) -> bool { true }
